@@ -588,14 +588,23 @@ func main() {
 	cases := hx.ReadCases[caseT](hx.Arg("-cases", "cases.ndjson"))
 	out := hx.NewOut(hx.Arg("-out", "obs.ndjson"))
 	defer out.Close()
+	// (attack schedules are expected to drift on a correct tree; for the others see busx: fail fast)
+	bad := 0
 	for _, c := range cases {
+		if bad >= 40 {
+			break
+		}
 		hx.Current(c)
 		if c.Stress > 0 {
 			for it := 0; it < c.Stress; it++ {
 				out.Write(runStress(c, it))
 			}
 		} else {
-			out.Write(runForced(c))
+			o := runForced(c)
+			if !c.Attack && (o.Drift != "" || o.Problem != "") {
+				bad++
+			}
+			out.Write(o)
 		}
 	}
 	_ = os.Stdout
